@@ -157,7 +157,16 @@ func gsxC06InitCheckers() {
 // gsxC06DefaultList: with no flags exactly the checkers without the
 // experimental, opinionated, performance or security tag are enabled.
 func gsxC06DefaultList() {
-	tagsA := gsxTags("A", 3)
+	// tag sets over the tag vocabulary (the real tags are longer than the 3-byte tags of gsxTags)
+	nt := gsxrt.Choose("A.ntags", 4)
+	tagsA := make([]string, nt)
+	for i := range tagsA {
+		tagsA[i] = gsxrt.StringN("A.tag"+gsxItoa(i), 12)
+		gsxrt.Assume(gsxrt.Matches(`^(diagnostic|style|performance|experimental|opinionated|security)$`, tagsA[i]))
+		for j := 0; j < i; j++ {
+			gsxrt.Assume(tagsA[i] != tagsA[j])
+		}
+	}
 	infoA := gsxRegister("gsxA", tagsA)
 	infoB := gsxRegister("gsxB", []string{"diagnostic"})
 	p := &program{}
